@@ -538,7 +538,10 @@ class HWorld:
         elif kind == "corrupt_module":
             if self.mod and self.mod["magic_ok"]:
                 data = e.module_bytes()
-                data2 = re.sub(rb"_magic_number = (\d+)", lambda m: b"_magic_number = " + str(int(m.group(1)) + 1).encode(), data)
+                # another generator version: the next / the previous number, and numbers whose decimal text begins with this one's
+                how = ev[1] if len(ev) > 1 else "+1"
+                other = {"+1": lambda k: k + 1, "-1": lambda k: k - 1, "x10": lambda k: k * 10, "x10+4": lambda k: k * 10 + 4}[how]
+                data2 = re.sub(rb"_magic_number = (\d+)", lambda m: b"_magic_number = " + str(other(int(m.group(1)))).encode(), data)
                 with open(e.modpath, "wb") as f:
                     f.write(data2)
                 os.utime(e.modpath, (self.mod["mtime"], self.mod["mtime"]))
@@ -626,16 +629,26 @@ class HWorld:
             p = importlib.util.cache_from_source(e.modpath)
             if os.path.exists(p):
                 pyc = hashlib.sha1(open(p, "rb").read()[16:]).hexdigest()[:8], open(p, "rb").read()[8:16].hex()
+        # the number the module file on disk really carries (an observation of the implementation's state, not of the
+        # model: files with different foreign numbers are different states)
+        realmagic = None
+        try:
+            with open(e.modpath, "rb") as f:
+                mm = re.search(rb"_magic_number = (\d+)", f.read(4000))
+            realmagic = int(mm.group(1)) if mm else "none"
+        except OSError:
+            pass
         return (
             self.src[0],
             top - m[self.src[1]],
             (self.mod["gen"], self.mod["magic_ok"], top - m[self.mod["mtime"]]) if self.mod else None,
             pyc,
+            realmagic,
         )
 
 
 def h_events(cfg):
-    ev = [("tick",), ("construct",), ("rm_module",), ("corrupt_module",), ("touch_module", "older"), ("touch_module", "newer"), ("ext_regen",)]
+    ev = [("tick",), ("construct",), ("rm_module",), ("corrupt_module",), ("corrupt_module", "x10+4"), ("touch_module", "older"), ("touch_module", "newer"), ("ext_regen",)]
     for v in ("A", "B", "C"):
         for rel in ("older", "equal", "newer") + (("samesec-earlier", "samesec-later", "epoch") if v == "B" else ()):
             ev.append(("src", v, rel))
